@@ -107,6 +107,12 @@ std::vector<std::string>& split(std::vector<std::string>* into,
         tlx::string_view::const_iterator it = str.begin();
         while (it != str.end())
         {
+            if (into->size() + 1 >= limit)
+            {
+                into->emplace_back(it, str.end());
+                return *into;
+            }
+
             into->emplace_back(it, it + 1);
             ++it;
         }
